@@ -3,7 +3,7 @@ from vlib.hist_common import *
 
 RULE = ("random op lists with every mask subset (sample 0..3, view 0..3, instance 0..7), max_samples in {-1,0,1,2,3}, optional "
         "instance handle (incl. unknown); `dump` after every op gives the stored samples and the instance states the oracle "
-        "filters by; non-trivial as for the hist engine; distinct by hash of the op list")
+        "filters by; read/take_next_instance ops are judged too (exact selection of one later instance; NoData only when no later instance matches); non-trivial as for the hist engine; distinct by hash of the op list")
 ASSUMPTIONS = ["ranks follow DDS 1.4 2.2.2.5.1: sample_rank = later same-instance samples in the collection; generation_rank = generations between "
                "the sample and the most recent same-instance sample of the collection; absolute_generation_rank = generations between the "
                "sample and the instance's most recent received state"]
@@ -31,6 +31,30 @@ def sel(samples, insts, ss, vs, is_, inst, mx):
     return outl
 
 
+def next_instance_step(q, i, t, o, before):
+    """read/take_next_instance seen from C20: what is returned is exactly the selection of ONE instance behind the previous handle,
+    and NoData only when no instance behind the previous handle has a matching sample (which instance it must be is C23's subject)"""
+    samples, insts, _ = before
+    mx = int(t[1]); prev = None if t[2] == "-" else int(t[2]); ss, vs, is_ = int(t[3]), int(t[4]), int(t[5])
+    kind, infos = parse_infos(o)
+    if not q["enabled"]:
+        return []
+    cands = sorted(h for h in insts if (prev is None or h > prev) and sel(samples, insts, ss, vs, is_, h, mx))
+    if kind == "err":
+        if infos == "NoData" and cands:
+            return [{"what": f"op {i} {' '.join(t)}: NoData although instance(s) {cands} behind {prev} hold matching samples", "at": i}]
+        return []
+    if kind != "ok":
+        return []
+    hs = sorted(set(x["inst"] for x in infos))
+    if len(hs) != 1 or (prev is not None and hs[0] <= prev):
+        return [{"what": f"op {i} {' '.join(t)}: returned samples of instances {hs}, expected one instance behind {prev}", "at": i}]
+    exp = [samples[k]["data"] for k in sel(samples, insts, ss, vs, is_, hs[0], mx)]
+    if [x["data"] for x in infos] != exp:
+        return [{"what": f"op {i} {' '.join(t)}: returned {[x['data'] for x in infos]} of instance {hs[0]}, its matching samples are {exp}", "at": i}]
+    return []
+
+
 def oracle(case, out):
     q = parse_qos(case.lines[0]) if case.lines and case.lines[0].startswith("qos") else None
     if q is None:
@@ -39,6 +63,9 @@ def oracle(case, out):
     for i, t, o, before, after in walk(case, out):
         if o in ("PANIC", "POISONED") or o.startswith("CRASH"):
             viol.append({"what": f"op {i} {' '.join(t)} panicked", "at": i}); break
+        if t[0] in ("readni", "takeni") and after is not None:
+            viol += next_instance_step(q, i, t, o, before)
+            continue
         if t[0] not in ("read", "take") or after is None:
             continue
         samples, insts, _ = before
